@@ -200,11 +200,85 @@ def hostile_doc(draw):
     case = {"ir": ir, "cfg": cfg, "meta": draw(st.sampled_from(["none", "poetry", "pdm", "setup"]))}
     if n_excl[0]:
         case["excluded_coinciding_inline_classes"] = n_excl[0]
+    obj_names = [n for n, sc in ir["schemas"] if sc["k"] == "object"]
+    if obj_names and draw(st.integers(0, 3)) == 0:
+        # warning-level bad pieces (the document is still accepted): a component with an unusable property, and good pieces that
+        # reach it through every kind of reference. What is generated must not refer to what was left out.
+        case["faults"] = [{"host": draw(st.sampled_from(obj_names)), "fault": draw(st.sampled_from(WARNING_FAULTS)), "n": i,
+                           "route": draw(st.sampled_from(ROUTES)), "first": draw(st.booleans()), "required": draw(st.booleans())}
+                          for i in range(draw(st.integers(1, 2)))]
     if draw(st.integers(0, 4)) == 0:
         # the package is regenerated with --overwrite over an earlier, different document (other tags, schemas, operations)
         case["previous"] = draw(docs.doc_ir(docs.profile(max_schemas=3, max_props=2, max_ops=3)))
         case["previous"]["title"] = ir["title"]
     return case
+
+
+WARNING_FAULTS = ["array_without_items", "dangling_ref", "invalid_default", "mixed_enum", "bad_date_default", "nested_bad_item",
+                  "union_with_bad_member", "enum_default_is_list", "tuple_with_bad_slot"]
+ROUTES = ["ref", "array", "prefix", "union", "nullable_ref", "addl", "nested", "via_array_alias", "via_union_alias", "allof_child",
+          "array_of_union", "response", "body", "none"]
+_NUM = ["One", "Two"]
+
+
+def inject_faults(doc: dict, faults: list[dict]) -> None:
+    """Patches the rendered document in place (see hostile_doc)."""
+    from . import c08
+
+    schemas = doc.setdefault("components", {}).setdefault("schemas", {})
+    v31 = str(doc.get("openapi", "")).startswith("3.1")
+    for f in faults:
+        target = schemas.get(f["host"])
+        if not isinstance(target, dict):
+            continue
+        holder = target
+        if "allOf" in target and "properties" not in target:
+            inl = [m for m in target["allOf"] if isinstance(m, dict) and "$ref" not in m]
+            if not inl:
+                target["allOf"].append({"type": "object"})
+                inl = [target["allOf"][-1]]
+            holder = inl[-1]
+        if holder.get("type") not in (None, "object"):
+            continue
+        import copy as _copy
+
+        holder.setdefault("properties", {})[f"zzBad{f['n']}"] = _copy.deepcopy(c08.SCHEMA_FAULTS[f["fault"]])
+        if f.get("required"):
+            holder.setdefault("required", []).append(f"zzBad{f['n']}")
+        ref = {"$ref": "#/components/schemas/" + f["host"]}
+        route = f["route"]
+        if route == "prefix" and not v31:
+            route = "array"
+        new: dict = {}
+        tgt = ref
+        if route in ("via_array_alias", "via_union_alias"):
+            alias = "YyAlias" + _NUM[f["n"] % 2]
+            new[alias] = {"type": "array", "items": ref} if route == "via_array_alias" else {"oneOf": [ref, {"type": "integer"}]}
+            tgt = {"$ref": "#/components/schemas/" + alias}
+        sch = {"ref": tgt, "via_array_alias": tgt, "via_union_alias": tgt,
+               "array": {"type": "array", "items": ref},
+               "prefix": {"type": "array", "prefixItems": [ref, {"type": "string"}]},
+               "union": {"anyOf": [ref, {"type": "integer"}]},
+               "nullable_ref": {"anyOf": [ref, {"type": "null"}]} if v31 else {"nullable": True, "allOf": [ref]},
+               "addl": {"type": "object", "additionalProperties": ref},
+               "nested": {"type": "object", "properties": {"deep": ref}, "required": ["deep"]},
+               "array_of_union": {"type": "array", "items": {"oneOf": [{"type": "string"}, ref]}}}.get(route)
+        user = "YyUser" + _NUM[f["n"] % 2]
+        if sch is not None:
+            new[user] = {"type": "object", "properties": {"route": sch, "label": {"type": "string"}}}
+        elif route == "allof_child":
+            new[user] = {"allOf": [ref, {"type": "object", "properties": {"yyOwn": {"type": "string"}}}]}
+        elif route in ("response", "body"):
+            op = {"operationId": "yyUse" + _NUM[f["n"] % 2], "responses": {"200": {"description": "ok"}}}
+            if route == "response":
+                op["responses"]["200"]["content"] = {"application/json": {"schema": ref}}
+            else:
+                op["requestBody"] = {"content": {"application/json": {"schema": ref}}}
+            doc.setdefault("paths", {})["/yy-use-" + _NUM[f["n"] % 2].lower()] = {"post": op}
+        if f.get("first"):
+            doc["components"]["schemas"] = schemas = {**new, **schemas}
+        else:
+            schemas.update(new)
 
 
 def strategy(tier):
@@ -221,6 +295,11 @@ def run(case, ctx):
     _case_no += 1
     ir = case["ir"]
     doc = docs.render(ir)
+    if case.get("faults"):
+        inject_faults(doc, case["faults"])
+        ctx.label("with_warning_level_faults")
+        for f_ in case["faults"]:
+            ctx.label("fault_route:" + f_["route"])
     meta = case.get("meta", "none")
     out_dir = None
     if case.get("previous"):
